@@ -586,11 +586,13 @@ pub fn gen_c04(ctx: &Ctx, run: u64) -> ScenarioB {
                 }
                 // sometimes the "twin" of the previous position: same placement and side to move,
                 // fewer castling rights (positions that differ only in their rights share the tables)
-                if rng.chance(8, 100) {
+                if rng.chance(20, 100) {
                     if let Some(prev) = steps.last() {
                         if let Some(twin) = twin_with_fewer_rights(prev, &mut rng) {
                             st.fen = twin;
                             st.moves.clear();
+                            st.resize_mb = None;
+                            st.reset = false;
                         }
                     }
                 }
@@ -645,7 +647,9 @@ fn twin_with_fewer_rights(prev: &SearchStep, rng: &mut Rng) -> Option<String> {
     if f.len() < 4 || f[2] == "-" {
         return None;
     }
-    let kept: String = f[2].chars().filter(|_| rng.chance(1, 2)).collect();
+    // all rights gone in half of the twins, a random subset otherwise
+    let drop_all = rng.chance(1, 2);
+    let kept: String = f[2].chars().filter(|_| !drop_all && rng.chance(1, 2)).collect();
     f[2] = if kept.is_empty() { "-".to_string() } else { kept };
     Some(f.join(" "))
 }
